@@ -63,7 +63,7 @@ func minkowskiInternal(pattern Path64, path Path64, isSum bool, isClosed bool) P
 		tmp = append(tmp, path2)
 	}
 
-	result := make(Paths64, 0, (pathLen-delta)*patLen)
+	result := make(Paths64, 0, max(0, (pathLen-delta)*patLen))
 	g := 0
 	if isClosed {
 		g = pathLen - 1
